@@ -49,3 +49,32 @@ def inv_stream_clauses(h, s):
 
 def inv_stream(h, s):
     return And(*[c for _, c in inv_stream_clauses(h, s)])
+
+
+# ---------------------------------------------------------------------------------------------
+# Problem tables
+# ---------------------------------------------------------------------------------------------
+from OpenPinch.classes.problem_table import ProblemTable  # noqa: E402
+from OpenPinch.lib.config import tol  # noqa: E402
+from OpenPinch.lib.enums import ProblemTableLabel as PT  # noqa: E402
+
+
+def table(h, n, cols, prefix="", strictly_descending=True, min_gap=None):
+    """A ProblemTable of n rows whose listed columns are independent symbols (the rest is NaN).
+
+    The real class is constructed with its own __init__; only the cell values are symbolic."""
+    data = {PT.T.value: h.reals(f"{prefix}T", n)}
+    for c in cols:
+        data[c] = h.reals(f"{prefix}{c}_", n)
+    T = data[PT.T.value]
+    for i in range(n - 1):
+        if min_gap is not None:
+            h.assume(T[i] - T[i + 1] > min_gap)
+        elif strictly_descending:
+            h.assume(T[i] > T[i + 1])
+    pt = ProblemTable({k: list(v) for k, v in data.items()})
+    return pt, data
+
+
+def col(pt, name):
+    return list(pt.col[name])
